@@ -10,6 +10,16 @@ CHECKS = {
         technique='runtime differential monitor: real SequenceDataSource/ShardedIterable/MergedSequences executed on an exhaustively enumerated small space (plus seeded random larger cases) against a plain-list oracle',
         text='Exhaustive-within-bounds execution of the real sharding and merged-sequence code with a list oracle: every (n,k) up to the bound, every 2-level nesting, every in-shard offset, every composition into possibly-empty parts x read-ahead sizes x every index and slice pair. Sharding arithmetic is pure and low-dimensional, so small exhaustive bounds plus random large cases are the right level.',
         note='Trusted: CPython list semantics as the oracle; behaviour beyond the explored bounds (n<=12/40 exhaustive, <=2000 random) is not covered.'),
+    'C04': dict(
+        category='exploration', design_ref='DESIGN.md §3.2, §4 C04', engine='E2-deterministic-scheduler',
+        technique='runtime monitoring under a deterministic thread scheduler: the real IteratorQueue is driven by producer/consumer threads whose interleaving (at every lock/condition operation and at statement boundaries of the queue methods via sys.monitoring) is chosen by seeded random-walk/PCT strategies; an offline checker over the unique-id event log decides exactly-once, per-producer order, end-of-stream values; hangs are exact deadlock witnesses',
+        text='Schedule exploration of the real queue code (about 19k schedules quick, about 1M thorough) with exact deadlock detection and an offline history checker. Unit tests sample one OS schedule each; this explores tens of thousands of distinct interleavings including pre-emption inside the release/re-acquire window.',
+        note='Trusted: the scheduler shim (FIFO notify, no spurious wake-ups, re-entrant RLock), CPython queue classes; pre-emption granularity is a Python statement; only explored schedules are covered.'),
+    'C05': dict(
+        category='exploration', design_ref='DESIGN.md §3.2, §4 C05', engine='E2-deterministic-scheduler',
+        technique='as C04, with enumerated fault positions: every (producer, position) iterator failure, every stop point with/without exception, starvation with a timeout; offline checker over the event log (every consumer sees the failure, no duplicates, all producers return) plus exact deadlock witnesses',
+        text='Every failure position and stop point of every generated configuration is combined with several explored schedules; a timed wait may only expire under global starvation, so a masked lost wake-up shows up as an unexpected TimeoutError.',
+        note='As C04. Elements still queued when a failure is observed may be dropped (the property only forbids duplicates).'),
 }
 
 NOT_APPLICABLE = {}
@@ -43,6 +53,7 @@ def main():
           'add_only': True,
       },
       'engines': [
+          {'name': 'E2-deterministic-scheduler', 'path': 'vlib/sched/', 'serves_properties': ['C03', 'C04', 'C05', 'C13', 'C15', 'C20'], 'kind_free_text': 'threading/futures shims + seeded scheduler (random walk, PCT) + sys.monitoring LINE yield injection; exact deadlock witnesses; replayable choice traces'},
           {'name': 'E1-differential', 'path': 'vlib/runner.py', 'kind_free_text': 'seeded/exhaustive case generation, real API vs independent oracle or metamorphic twin, subprocess fan-out'},
       ],
       'checks': checks,
